@@ -46,8 +46,7 @@ def sweep(rng, n):
 oracle_search = propgen.budgeted([sweep])
 
 
-def oracle_at(unit, case, impl):
-    return None
+oracle_at = propgen.definitional_oracle_at(['multipitch_metrics', 'multipitch_resample'], 'error accounting / nearest-frame resampling as specified')
 
 
 def diagnose(b):
